@@ -51,27 +51,28 @@ static int run_analyser(Program& p) {
     return 0;
 }
 
-// Rule "use before declaration": an undeclared name y used as (0) initialiser, (1) assignment value, (2) echo argument,
+// (names avoid the built-in gate identifiers h,x,y,z,rx,ry,rz,cx: `int x = y;` is accepted because y IS declared - as a built-in function)
+// Rule "use before declaration": an undeclared name vv used as (0) initialiser, (1) assignment value, (2) echo argument,
 // (3) condition operand; twin: the same program with y declared first must be accepted.
 extern "C" void harness_undeclared() {
     const int pos = verif_param(0);
     const bool declared = verif_param(1) == 1;
     std::vector<std::unique_ptr<Statement>> body;
-    if (declared) body.push_back(decl("int", "y", lit("1", "int")));
+    if (declared) body.push_back(decl("int", "vv", lit("1", "int")));
     if (pos == 0) {
-        body.push_back(decl("int", "x", var("y")));
+        body.push_back(decl("int", "xx", var("vv")));
     } else if (pos == 1) {
-        body.push_back(decl("int", "x", lit("0", "int")));
+        body.push_back(decl("int", "xx", lit("0", "int")));
         auto as = std::make_unique<AssignmentStatement>();
-        as->name = "x"; as->value = var("y");
+        as->name = "xx"; as->value = var("vv");
         body.push_back(std::move(as));
     } else if (pos == 2) {
         auto ec = std::make_unique<EchoStatement>();
-        ec->value = var("y");
+        ec->value = var("vv");
         body.push_back(std::move(ec));
     } else {
         auto iff = std::make_unique<IfStatement>();
-        iff->condition = std::make_unique<BinaryExpression>("==", var("y"), lit("1", "int"));
+        iff->condition = std::make_unique<BinaryExpression>("==", var("vv"), lit("1", "int"));
         iff->thenBranch = std::make_unique<BlockStatement>();
         body.push_back(std::move(iff));
     }
@@ -81,5 +82,86 @@ extern "C" void harness_undeclared() {
     if (declared) verif_assert(r == 0, "C16: the program without the violation is accepted");
     else verif_assert(r == 1, "C16: a name used before any declaration is a Semantic error wherever it is written");
     (void)p.functions[0].release();
+    verif_reach();
+}
+
+// Rule "final variables are never assigned or incremented after initialisation".  P0: 0 = `x = 2;` (AssignmentStatement),
+// 1 = `x++;` (PostfixExpression), 2 = `(x = 2);` (AssignmentExpression).  P1: x declared final or not (twin).
+extern "C" void harness_final() {
+    const int how = verif_param(0);
+    const bool isFinal = verif_param(1) == 1;
+    std::vector<std::unique_ptr<Statement>> body;
+    body.push_back(decl("int", "xx", lit("1", "int"), isFinal));
+    if (how == 0) {
+        auto as = std::make_unique<AssignmentStatement>();
+        as->name = "xx"; as->value = lit("2", "int");
+        as->line = verif_nd_int(); as->column = verif_nd_int();
+        body.push_back(std::move(as));
+    } else {
+        auto es = std::make_unique<ExpressionStatement>();
+        if (how == 1) es->expression = std::make_unique<PostfixExpression>("++", var("xx"));
+        else es->expression = std::make_unique<AssignmentExpression>("xx", lit("2", "int"));
+        es->expression->line = verif_nd_int(); es->expression->column = verif_nd_int();
+        body.push_back(std::move(es));
+    }
+    Program p;
+    p.functions.push_back(fn_main(std::move(body)));
+    int r = run_analyser(p);
+    if (isFinal) verif_assert(r == 1, "C16: writing a final local is a Semantic error whatever node performs the write");
+    else verif_assert(r == 0, "C16: the same write to a non-final local is accepted");
+    (void)p.functions[0].release();
+    verif_reach();
+}
+
+// Rule "an initialiser is accepted only if it has the declared type or is an int widening to long" on primitive literals.
+extern "C" void harness_types() {
+    static const char* const kT[7] = {"int", "long", "float", "bit", "boolean", "string", "char"};
+    static const char* const kV[7] = {"1", "1L", "1.0f", "1b", "true", "\"s\"", "'c'"};
+    const int dt = verif_param(0), vt = verif_param(1);
+    std::vector<std::unique_ptr<Statement>> body;
+    body.push_back(decl(kT[dt], "xx", lit(kV[vt], kT[vt])));
+    Program p;
+    p.functions.push_back(fn_main(std::move(body)));
+    int r = run_analyser(p);
+    bool ok = dt == vt || (dt == 1 && vt == 0);
+    verif_assert(r == (ok ? 0 : 1), "C16: a primitive initialiser is accepted exactly when it has the declared type or is an int widening to long");
+    (void)p.functions[0].release();
+    verif_reach();
+}
+
+// C10: acceptance does not depend on top-level declaration order.  Two functions, main calling g with k arguments.
+// P0 = order (0: g first, 1: main first), P1 = number of parameters/arguments k (0..2), P2 = arity mismatch (0 = call matches, 1 = one argument too many)
+static std::unique_ptr<FunctionDeclaration> fn_g(int k) {
+    auto f = std::make_unique<FunctionDeclaration>();
+    f->name = "gg";
+    f->returnType = std::make_unique<VoidType>();
+    f->body = std::make_unique<BlockStatement>();
+    for (int i = 0; i < k; ++i) {
+        auto p = std::make_unique<Parameter>();
+        p->name = i == 0 ? "p0" : "p1";
+        p->type = prim("int");
+        f->params.push_back(std::move(p));
+    }
+    f->line = verif_nd_int(); f->column = verif_nd_int();
+    return f;
+}
+extern "C" void harness_order() {
+    const int order = verif_param(0), k = verif_param(1), extra = verif_param(2);
+    std::vector<std::unique_ptr<Expression>> args;
+    for (int i = 0; i < k + extra; ++i) args.push_back(lit("1", "int"));
+    auto call = std::make_unique<CallExpression>(var("gg"), std::move(args));
+    call->line = verif_nd_int(); call->column = verif_nd_int();
+    auto es = std::make_unique<ExpressionStatement>();
+    es->expression = std::move(call);
+    std::vector<std::unique_ptr<Statement>> body;
+    body.push_back(std::move(es));
+    Program p;
+    if (order == 0) { p.functions.push_back(fn_g(k)); p.functions.push_back(fn_main(std::move(body))); }
+    else { p.functions.push_back(fn_main(std::move(body))); p.functions.push_back(fn_g(k)); }
+    int r = run_analyser(p);
+    // the expected verdict is a function of the program's content only, never of the order
+    verif_assert(r == (extra ? 1 : 0), "C10: a call is accepted exactly when it matches the callee's signature, wherever the callee is declared");
+    (void)p.functions[0].release();
+    (void)p.functions[1].release();
     verif_reach();
 }
